@@ -413,6 +413,10 @@ class AggregatedFrame(ProtocolDataUnit):
                 raise DecodeError("aggregated PDU length field error in AGF")
             if pdu_size > size - 2:
                 raise DecodeError("aggregated PDU length exceeds the AGF size")
+            if pdu_size >= 2:
+                ptype = (struct.unpack_from('!H', data, offset+2)[0] >> 6) & 15
+                if ptype == 0b0010:
+                    raise DecodeError("AGF PDU must not contain an AGF PDU")
             agf_pdu.append(decode(data, offset+2, pdu_size))
             offset, size = offset + 2 + pdu_size, size - 2 - pdu_size
         return agf_pdu
